@@ -53,7 +53,7 @@ static void one(vt::i128 c128) {
   std::string text;
   {
     std::string o;
-    VT_GUARD(ub, o = format("%s|%E15f|%E3f|%E*f|%E0f|%S|%E2S", tp, g_utc));
+    VT_GUARD(ub, o = format("%s|%E15f|%E3f|%E*f|%E0f|%S|%E2S|%E16f|%E18S|%E1f %E*S %E6f", tp, g_utc));
     out->emit("{\"e\":\"FormatD\"" + hdr + ",\"out\":" + bj(o) + ",\"ub\":" + std::to_string(ub) + "}");
     VT_GUARD(ub, text = format("%Y-%m-%dT%H:%M:%E*S%Ez", tp, g_utc));
   }
